@@ -191,6 +191,9 @@ func gen(r *sim.Rng, tier string) *sim.Case {
 	if r.Pct(60) {
 		nT = r.Range(2, 3)
 	}
+	if r.Pct(3) {
+		nT, maxOps = r.Range(6, 10), 2 // rare: many threads, one or two operations each
+	}
 	scen := r.Pick(8, 1, 1) // general | pushers only | poppers only
 	c.Params["scenario"] = scen
 	w := []int{r.Range(1, 6), r.Range(1, 6), r.Range(0, 2), r.Range(0, 1), r.Range(0, 1), r.Range(0, 2), r.Range(0, 2)}
